@@ -104,6 +104,7 @@ type Report struct {
 	Known          *KnownFindings
 	ContractSource map[string]string
 	LoadS, GenS, SolveS float64
+	mods                []Module
 }
 
 func (r *Report) allObls() []*Obligation {
